@@ -6,6 +6,8 @@ import FimVerif.Proofs.Lemmas.C03Iso
 import FimVerif.Proofs.Lemmas.C03Text
 import FimVerif.Proofs.Lemmas.C03Fail
 import FimVerif.Generated.Fields
+import FimVerif.Proofs.Lemmas.C03Phase
+import FimVerif.Generated.MiPhase
 /-!
 # C03 — attribute value codecs are lossless, canonical and never mutate their input
 
@@ -1004,5 +1006,54 @@ example : ∃ kw, construct Gen.Fields.capacities (fun _ _ => true) kw = .ok (se
   ⟨[("core", .int 1)], by rfl⟩
 
 example : (MInfo.empty.finalize).lock = true := rfl
+
+/-! ## handles that outlive finalize (Model/CodecPhase.lean; flags probed by gen/miphase.py)
+
+"A finalized maintenance record cannot be altered" - also not through an entry object the caller obtained while the
+record was still being built (the object given to `add`, what `get` handed out for editing in place). -/
+section phase
+open Phase
+
+/-- the ownership behaviour the probes observed on the code -/
+def genFlags : Flags :=
+  { addKeepsArg := Gen.MiPhase.addKeepsArg, getOpenHandsOutOwn := Gen.MiPhase.getOpenHandsOutOwn,
+    finalizeCopies := Gen.MiPhase.finalizeCopies, getLockedCopies := Gen.MiPhase.getLockedCopies }
+
+/-- the code copies where the guarantee needs it: at finalize and when a finalized record hands an entry out; modifiers are refused -/
+theorem phase_flags_safe : genFlags.finalizeCopies = true ∧ genFlags.getLockedCopies = true ∧ Gen.MiPhase.addLockedRefused = true := by decide
+
+/-- finalize itself does not change what the record shows, whatever was done to it before -/
+theorem phase_finalize_keeps_view {α : Type} (f : Flags) (hf : f.finalizeCopies = true) (d : α) (build : List (Op α)) :
+    view (run f (init d) (build ++ [.finalize])) = view (run f (init d) build) := by
+  rw [run_append]
+  exact (finalize_sep f hf _ (wf_run f build _ (wf_init d))).2
+
+/-- for EVERY build history (adds, gets that hand out the record's own entries, edits through them, earlier finalizes) and
+every later history (edits through every handle ever obtained, gets, rejected adds, further finalizes): the content of the
+record after the later history is its content at finalize.  Only the two copying flags are needed - what `add` and `get`
+do while the record is open is irrelevant. -/
+theorem phase_finalized_immutable {α : Type} (f : Flags) (hf : f.finalizeCopies = true) (hg : f.getLockedCopies = true)
+    (d : α) (build after : List (Op α)) :
+    view (run f (init d) (build ++ [.finalize] ++ after)) = view (run f (init d) (build ++ [.finalize])) := by
+  rw [run_append f (build ++ [Op.finalize]) after, run_append f build [Op.finalize]]
+  have w := wf_run f build _ (wf_init d)
+  have h := finalize_sep f hf _ w
+  exact sep_run f hf hg after _ (wf_step f _ .finalize w) h.1
+
+/-- ... and so for the code as probed, without hypotheses -/
+theorem phase_finalized_immutable_code {α : Type} (d : α) (build after : List (Op α)) :
+    view (run genFlags (init d) (build ++ [.finalize] ++ after)) = view (run genFlags (init d) (build ++ [.finalize])) :=
+  phase_finalized_immutable genFlags phase_flags_safe.1 phase_flags_safe.2.1 d build after
+
+example : ∃ f : Flags, f.finalizeCopies = true ∧ f.getLockedCopies = true := ⟨⟨true, true, true, true⟩, rfl, rfl⟩
+
+/-- copying on the way IN (at add) instead of at finalize is not enough: a handle from `get` on the open record survives -/
+theorem phase_no_copy_at_finalize_counterexample :
+    let f : Flags := { addKeepsArg := false, getOpenHandsOutOwn := true, finalizeCopies := false, getLockedCopies := true }
+    view (run f (init 0) [.add "n" 1, .get "n", .finalize, .edit 1 2]) = [("n", 2)] ∧
+    view (run f (init 0) [.add "n" 1, .get "n", .finalize]) = [("n", 1)] := by
+  decide
+
+end phase
 
 end FimVerif.C03
